@@ -17,7 +17,7 @@ C40 driver.  Requests:
   pdate.parse <string, spaces as `_`>             -> `<secs> <offset>` | `E:<kind>`
   md.fields <rid> <sha|~> <time> <tz> <target> <source|~> <message|~> <base rid>   (text = hex of its UTF-8, `-` = empty)
                                                   -> stanza pairs `tag=hex,tag=hex,…` | `E:<kind>`
-  md.unfields <pairs> <T|F has bundle>            -> `ok <rid> <sha|~> <time> <tz> <target> <source|~> <message|~> <base rid>` | `E:<kind>`
+  md.unfields <strict|tolerant> <pairs> <T|F has bundle>  -> `ok <rid> <sha|~> <time> <tz> <target> <source|~> <message|~> <base rid>` | `E:<kind>`
   norm <hex>                                      -> hex
   verify <calculated hex> <stored hex>            -> T|F
 
@@ -227,13 +227,14 @@ def handle : List String → String
       | .ok st => showStanza st
       | .error e => showFErr e
     | _, _, _, _, _, _, _, _ => "bad-op"
-  | ["md.unfields", pairs, hb] =>
-    match parseStanza pairs, (if hb == "T" then some true else if hb == "F" then some false else none) with
-    | some st, some hb =>
-      match fromPairs st hb with
+  | ["md.unfields", variant, pairs, hb] =>
+    match (if variant == "strict" then some false else if variant == "tolerant" then some true else none),
+        parseStanza pairs, (if hb == "T" then some true else if hb == "F" then some false else none) with
+    | some tol, some st, some hb =>
+      match fromPairsV tol st hb with
       | .ok f => showFields f
       | .error e => showFErr e
-    | _, _ => "bad-op"
+    | _, _, _ => "bad-op"
   | ["norm", h] =>
     match fromHex h with
     | some b => toHex (norm b)
